@@ -161,6 +161,24 @@ CLAIMS = {
    note="Trusted: rustc HIR, README pest block, the frozen reference lexicon, Unicode category data of the Python runtime."),
 }
 
+# additions from the bug-hunting round (DESIGN.md §5.1): rule + known findings printed as KNOWN-FINDING lines (exit 0)
+EXTRA = {
+ "C01": " Also: every use of the weak prefix matcher [char]::starts_with_str is length-guarded (P-FULLMATCH, defect D9 fixed); unique tokenisation where a "
+        "name touches a copula or the budget brackets is computed from the tables (T-JUXTAPOSE, T-BUDGET-IDENT): the Han collisions are recorded as known findings.",
+ "C02": " Also: name/copula juxtaposition (T-JUXTAPOSE, 7 Han known findings) and formatter/parser arity agreement (A-ARITY-LEX, zero-component compound/set known findings).",
+ "C03": " Also: full-match keyword recognition (P-FULLMATCH, D9) and `suffix items are cut only off a sentence` (S-SUFFIX, D11 fixed).",
+ "C05": " Also: every use of [char]::starts_with_str, which is true for a slice that ends inside the needle, is length-guarded (P-FULLMATCH, panic D10 fixed).",
+ "C09": " Also: P-FULLMATCH (a trailing space after a bare atom, D9), S-SUFFIX (D11) and T-JUXTAPOSE (removing the space between a name and a copula must not move the "
+        "token boundary: 12 Han known findings).",
+ "C10": " Also: a written derived copula stays the copula that is read when the subject name touches it (T-JUXTAPOSE; Han 具+有 known finding in both pipelines).",
+ "C11": " Also: sibling agreement on where a name ends (T-PEG-LOOKAHEAD): the grammar's generic !copula look-ahead vs the library's concrete copulas over the atom alphabet; "
+        "4 known findings (name-internal ---, --_, _--, _-_).",
+ "C15": " Also: budget borders are char counts (U-CHARS) and the budget brackets must not be spellable inside a name (T-BUDGET-IDENT; Han known finding in both parsers).",
+ "C17": " No arm of set_atom_name may be guarded or duplicated, and the Interval arm is exactly new_name.parse::<usize>().transform(..).",
+}
+for k, v in EXTRA.items():
+    CLAIMS[k]["text"] += v
+
 NOT_YET = "check not built yet (DESIGN.md §8 build order); will be claimed once its rules run"
 
 checks, na = [], []
